@@ -1522,14 +1522,23 @@ impl Fs {
 
     /// Check if a file exists (persisted or pending creation).
     pub(crate) fn file_exists(&self, path: &Path) -> bool {
+        self.file_exists_at(path, self.pending.len())
+    }
+
+    /// `file_exists` as of the first `upto` pending operations.
+    fn file_exists_at(&self, path: &Path, upto: usize) -> bool {
         let mut exists = self.persisted_files.contains_key(path);
-        for op in &self.pending {
+        for (i, op) in self.pending[..upto].iter().enumerate() {
             match op {
                 PendingOp::CreateFile { path: p, .. } if p == path => exists = true,
                 PendingOp::CreateHardLink { path: p, .. } if p == path => exists = true,
                 PendingOp::RemoveFile { path: p } if p == path => exists = false,
                 PendingOp::Rename { from, to: _ } if from == path => exists = false,
-                PendingOp::Rename { from: _, to } if to == path => exists = true,
+                // Something was renamed to this path - it is a file only if
+                // the source was a file when the rename happened
+                PendingOp::Rename { from, to } if to == path && self.file_exists_at(from, i) => {
+                    exists = true;
+                }
                 _ => {}
             }
         }
@@ -1538,25 +1547,22 @@ impl Fs {
 
     /// Check if a directory exists (persisted or pending creation).
     pub(crate) fn dir_exists(&self, path: &Path) -> bool {
+        self.dir_exists_at(path, self.pending.len())
+    }
+
+    /// `dir_exists` as of the first `upto` pending operations.
+    fn dir_exists_at(&self, path: &Path, upto: usize) -> bool {
         let mut exists = self.persisted_dirs.contains_key(path);
-        for op in &self.pending {
+        for (i, op) in self.pending[..upto].iter().enumerate() {
             match op {
                 PendingOp::CreateDir { path: p, .. } if p == path => exists = true,
                 PendingOp::RemoveDir { path: p } if p == path => exists = false,
-                // For renames, we need to check if the source was a directory
-                PendingOp::Rename { from, to: _ }
-                    if from == path
-                    // Source directory is being renamed away
-                    && self.persisted_dirs.contains_key(from) =>
-                {
-                    exists = false;
-                }
-                PendingOp::Rename { from, to }
-                    if to == path
-                    // Something is being renamed to this path - only mark as directory
-                    // if the source was a directory
-                    && self.persisted_dirs.contains_key(from) =>
-                {
+                // Renamed away (a rename of a file or symlink leaves no
+                // directory here either)
+                PendingOp::Rename { from, to: _ } if from == path => exists = false,
+                // Something was renamed to this path - it is a directory only
+                // if the source was a directory when the rename happened
+                PendingOp::Rename { from, to } if to == path && self.dir_exists_at(from, i) => {
                     exists = true;
                 }
                 _ => {}
